@@ -208,6 +208,9 @@ class Blocking(O.Monitor):
         # finished customers either moved on or are blocked
         for e in finished:
             ind, src, dest = e[3], e[2], e[5]
+            if dest != -1 and e[6][dest][0] >= self.capacity(Q, dest) and id(ind) not in self.blocked:
+                rep("moves-on-only-if-destination-has-space", {"customer": ind.id_number, "node": src, "destination": dest,
+                                                               "population_at_completion": e[6][dest][0], "capacity": self.capacity(Q, dest)})
             if id(ind) in self.blocked:
                 continue
             nd_now = where.get(id(ind))
